@@ -1301,7 +1301,8 @@ func TestRunnerLoop(t *testing.T) {
 		m := w.manifest(s)
 		m.ChainExchange.RebroadcastInterval = 24 * time.Hour // a ticker on the mock clock: keep it out of the way of clock jumps
 		h := &loopH{t: t, hl: hl, hist: &hist{w: w, r: r, rng: rng, ctx: ctx, clk: clk, s: s, m: m, dir: filepath.Join(base, fmt.Sprintf("l%d", hi)),
-			local: map[uint64]bool{1: true, 2: true}, sigs: map[string]mkey{}, lastEp: bootE, lag: int64(rng.Intn(2)),
+			// one identity without a quorum of its own: replaying its votes cannot decide an instance by itself
+			local: map[uint64]bool{1: true}, sigs: map[string]mkey{}, lastEp: bootE, lag: int64(rng.Intn(2)),
 			ds: ds_sync.MutexWrap(datastore.NewMapDatastore()), decEnd: map[uint64]int64{}}}
 		h.backend = &linEC{period: m.EC.Period, table: w.table, hl: hl, entered: make(chan string, 1), release: make(chan struct{})}
 		h.now = (bootE+3+int64(rng.Intn(4)))*s.Period + int64(rng.Intn(int(s.Period)))
@@ -1312,7 +1313,7 @@ func TestRunnerLoop(t *testing.T) {
 		if h.cs, err = certstore.CreateStore(ctx, h.ds, s.Init, w.table); err != nil {
 			t.Fatal(err)
 		}
-		r.emit(ev{"ev": "HReset", "mf": s, "local": []uint64{1, 2}, "now": h.now, "head": h.head(), "lossy": false, "bootE": bootE})
+		r.emit(ev{"ev": "HReset", "mf": s, "local": []uint64{1}, "now": h.now, "head": h.head(), "lossy": false, "bootE": bootE})
 		if hi%3 != 0 {
 			h.put(1 + rng.Intn(4))
 		}
@@ -1353,7 +1354,7 @@ func TestRunnerLoop(t *testing.T) {
 				} else {
 					h.lstep(h.now+int64(rng.Intn(int(3*s.Period))), 0, "tick", "")
 				}
-			case x < 7:
+			case x < 7 || (x < 9 && s.Align > 0):
 				h.prio1()
 			case x < 9:
 				// the node is far behind: whatever start is computed next is already due
